@@ -67,6 +67,8 @@ type aop struct {
 
 type authCase struct {
 	CPAuth bool  `json:"cp_auth"` // consensus-params authority override (an ordinary account) active from the start
+	PadA   int   `json:"pad_a"`   // dummy clients created on chain 0 before the v2 path (shifts its client ids)
+	PadB   int   `json:"pad_b"`   // dummy clients created on chain 1 before the v2 path; always != PadA so the two ends of every path have DIFFERENT ids
 	Ops    []aop `json:"ops"`
 }
 
@@ -370,7 +372,36 @@ func (r *runner) setCPAuth(on bool) {
 
 func (r *runner) setup(c authCase) {
 	r.w = sim.NewWorld(r.outer, 2, nil)
+	// Asymmetric identifiers: ibctesting would otherwise call both ends of the path 07-tendermint-0,
+	// and a handler that looks a config / counterparty up under the OTHER chain's id would go unnoticed.
+	padA, padB := c.PadA%3, c.PadB%3
+	if padA < 0 {
+		padA = -padA
+	}
+	if padB < 0 {
+		padB = -padB
+	}
+	if padA == padB {
+		padB = (padA + 1) % 3
+	}
+	sim.Guard("padding clients", func() {
+		pad := ibctesting.NewPath(r.w.Chains[0], r.w.Chains[1])
+		for i := 0; i < padA; i++ {
+			if err := pad.EndpointA.CreateClient(); err != nil {
+				vx.Harnessf("padding client on chain 0: %v", err)
+			}
+		}
+		for i := 0; i < padB; i++ {
+			if err := pad.EndpointB.CreateClient(); err != nil {
+				vx.Harnessf("padding client on chain 1: %v", err)
+			}
+		}
+	})
 	r.l = r.w.AddLink(sim.V2Clients, 0, 1, nil)
+	if r.l.Client(0) == r.l.Client(1) {
+		vx.Harnessf("client ids of the v2 path coincide (%s): padding failed", r.l.Client(0))
+	}
+	r.rec.Class("ids:%s<->%s", r.l.Client(0), r.l.Client(1))
 	r.m = &model{allowed: []string{"*"}, trSend: true, trRecv: true, icaCtl: true}
 	r.P = &mclient{ID: r.l.Client(0), Type: exported.Tendermint, Role: "P", Creator: "a0", CP: true}
 	r.m.clients = append(r.m.clients, r.P)
@@ -1103,6 +1134,8 @@ var cellSeen = map[string]int{}
 
 func genC46(t *rapid.T) authCase {
 	c := authCase{CPAuth: rapid.IntRange(0, 3).Draw(t, "cpauth") == 0}
+	c.PadA = rapid.IntRange(0, 2).Draw(t, "padA")
+	c.PadB = (c.PadA + rapid.IntRange(1, 2).Draw(t, "padBdelta")) % 3
 	n := rapid.IntRange(26, 44).Draw(t, "nops")
 	whos := []string{"auth", "creator", "listed", "stranger"}
 	vias := []string{"direct", "direct", "direct", "direct", "tx", "tx", "tx", "tx", "forged"}
@@ -1133,7 +1166,7 @@ func genC46(t *rapid.T) authCase {
 func TestC46(t *testing.T) {
 	vx.Check(t, vx.Prop[authCase]{
 		ID: c46,
-		Rule: "histories of 26-44 requests on chain 0 of a 2-chain world, each = operation (21 kinds: recover, ibc software upgrade, 5 param updates, 4 rate-limit admin msgs, " +
+		Rule: "histories of 26-44 requests on chain 0 of a 2-chain world whose two ends of every path carry DIFFERENT client ids (0-2 padding clients per chain), each = operation (21 kinds: recover, ibc software upgrade, 5 param updates, 4 rate-limit admin msgs, " +
 			"register counterparty, update client config, delete creator, v2 recv/ack/timeout, update client, create client, v2 send / conn-open-init through a client) x requested signer " +
 			"class (authority, creator, listed relayer, stranger; plus forged Signer field) x delivery (MsgServiceRouter handler as x/gov does | signed tx) x configuration " +
 			"(relayer allow list empty / has signer / others; allowed-clients * / subset with / without the type; creator deleted; counterparty registered; consensus-params authority override); " +
